@@ -30,7 +30,9 @@ CLAIMED = {
             "the true originator as source, the originator never. One BBMD + foreign device on the virtual clock with symbolic TTL and a "
             "symbolic whole-second observation instant up to TTL + 30 + 6: served and listed (Read-FDT over the wire) for at least the TTL, "
             "neither after TTL + grace without renewal, always with renewal, deletion takes effect at once, unregistration within grace; the "
-            "device's own registration status follows.",
+            "device's own registration status follows. Three foreign devices at one BBMD: deleting or unregistering one leaves exactly the others; "
+            "entries age next to one another with the grace the BBMD itself lists (looked at between two sweeps); a foreign device that lives on "
+            "the subnet of one BBMD and is registered with another.",
             "Trusted: as C04 plus the UDP multiplexer shim (as tests/test_bvll FauxMultiplexer) and inet stand-ins; TTL <= 2 (8) with every instant, "
             "TTL 60 / 300 (255, 256) with windows of instants, whole seconds; "
             "partial distribution tables are outside (Annex J promises coverage only for full ones)."),
@@ -41,7 +43,8 @@ CLAIMED = {
             "among equal times, not after suspend, re-install moves); recurring tasks with symbolic interval/offset/instants fire once per "
             "slot, also when installed or re-installed between 100 ms and 10 us before a slot; tasks 0.4 ms apart never fire early; deferred "
             "batches with every subset of raising / re-deferring members, every kind of callable (function, lambda, bound method, partial, "
-            "callable instance) and repeated equal (function, arguments) pairs run each call once in order.",
+            "callable instance) and repeated equal (function, arguments) pairs run each call once in order, also when one of them calls "
+            "core.stop(); a task that re-arms itself from its callback and is then moved or cancelled; offsets beyond one interval.",
             "Trusted: as C07 plus vf/world.py (asyncore.loop -> clock advance, trigger stand-in); instants are integers or eighths of a second "
             "so real arithmetic equals binary64; IEEE rounding of the recurring-slot formula for non-representable intervals is not claimed."),
     "C02": ("6/C02", SX + "; differential against a clause 20.2.1 reference (header encoder, liberal one-tag parser/tokenizer, bracket matcher)",
@@ -67,7 +70,7 @@ CLAIMED = {
             "transaction, timer, IOCB queue entry or further frame afterwards. Exhaustive inside the per-instance shape bounds "
             "(payload lengths, window sizes, retry counts, one fault in quick / two in thorough); nothing outside. One transition of a real "
             "client / server transaction state machine from a symbolic state under an inductive invariant; IOCB queues and chains of "
-            "requests submitted from completion callbacks with symbolic fates. The application giving up on a queued / active / finished IOCB (abort or timeout), a group of IOCBs, and transaction timers sharing the scheduler with unrelated far and near timers.",
+            "requests submitted from completion callbacks with symbolic fates. The application giving up on a queued / active / finished IOCB (abort or timeout), a group of IOCBs, transaction timers sharing the scheduler with unrelated far and near timers, a server that takes a segmented request and never answers, a duplicated request in front of a queue, an abort produced while the request is being submitted.",
             "Trusted: CrossHair symbolic models, z3, the virtual clock/loop stubs of vf/world.py (zero processing time), the fault LAN of "
             "vf/netlab.py; max APDU 50/128 only; threads (IOCB.wait) not modelled."),
     "C05": ("6/C05", SCN + "; wire oracle through an independent clause 20.1 header decoder",
@@ -86,7 +89,7 @@ CLAIMED = {
             "255 minus router hops; cold and warm caches; stations that do not know their network number. A cyclic topology shows "
             "hop-count termination for symbolic initial counts. One forwarding step of a three-port router from chosen cache states with "
             "a symbolic NPDU (destination kind/network/MAC, optional SADR, hop count 0..255, arrival port) against the clause 6.5 "
-            "forwarding rule; bursts of three packets toward an undiscovered network. Stations that learn their network number from announcements or by asking; traffic between the two ends of a four-network line with every cache cold; a station addressing its own network by number.",
+            "forwarding rule; bursts of three packets toward an undiscovered network. Stations that learn their network number from announcements or by asking; traffic between the two ends of a four-network line with every cache cold; a station addressing its own network by number; two path discoveries that cross; a station that learns its network number between two packets; the step router has a different MAC on every port.",
             "Trusted: as C04. Topologies other than the instantiated ones are outside; routing-protocol chatter in cyclic topologies is not part of the claim."),
     "C07": ("6/C07",
             SX + "; differential against a clause-20.1 reference layout",
@@ -120,20 +123,20 @@ CLAIMED = {
             "valid request queued at the same moment; symbolic noise at link level and, fed through one core.deferred() per datagram as "
             "UDPDirector does, at BVLL level: the concurrent valid request is answered correctly, no transaction, timer or deferred call is "
             "left, and a later valid request is answered; garbage claiming to be relayed from a remote network does not divert the answer "
-            "to a request the real router relays afterwards.",
+            "to a request the real router relays afterwards; a transfer begun and abandoned in either direction leaves nothing behind within 60 s; answers that do not fit (each segmentation capability), requests with unusual encodings, a device that supports DeviceCommunicationControl (undefined values), a device that has cached the client's I-Am, two clients with the same invoke ID.",
             "Trusted: as C04; parameter areas longer than 3 octets and two or more mutations per frame are outside; a request with a reserved "
             "max-APDU code must be refused once (abort or reject with its invoke ID)."),
     "C11": ("6/C11", SCN,
             "Invoke-ID allocation from a symbolic cursor (wrap-around without 256 requests) with symbolic peer choice and application-chosen "
             "IDs; one inbound reply of each kind with symbolic source and symbolic invoke ID against three live transactions with a forced "
             "cross-peer ID collision: only the transaction with equal (peer, ID) completes, every other ends by its own timeout, duplicates "
-            "are ignored; retransmitted requests (at once or a second apart) are indicated once and equal IDs from two peers are answered separately. The same MAC and invoke ID live on the local and on a remote network (replies relayed by a router); two stacks that are client and server of one another at once, one direction segmented.",
+            "are ignored; retransmitted requests (at once or a second apart) are indicated once and equal IDs from two peers are answered separately. The same MAC and invoke ID live on the local and on a remote network (replies relayed by a router); two stacks that are client and server of one another at once, one direction segmented; the abort a client sends carries the client's flag and ends only the peer's server transaction; allocation while a transaction is in the middle of a segmented answer; the IOCB layer does not hand a late reply to the next request.",
             "Trusted: as C04. At most 6 outstanding requests / 3 peers; exhaustion of all 256 IDs toward one peer is outside."),
     "C12": ("6/C12", SCN + "; frame lengths and headers read with an independent decoder; expected outcome from reference arithmetic on clause 20.1 header sizes",
             "For capability pairs (max APDU, segmentation support, max segments, I-Am known or not) with symbolic proposed windows 1..127 and "
             "symbolic payload lengths around the boundaries: no APDU on the LAN exceeds what its receiver announced, responses are segmented "
             "only when accepted and within max-segments, requests only toward peers that can receive segments, windows stay in 1..127 and "
-            "within the proposal, and the outcome (ack or abort) is the one the limits dictate. Peers that announced themselves twice (the later I-Am counts), clients whose earlier I-Am promised more than the request being answered, a peer that asks first; a bare station granting a symbolic window with every SegmentAck: never more segments outstanding than granted.",
+            "within the proposal, and the outcome (ack or abort) is the one the limits dictate. Peers that announced themselves twice (the later I-Am counts), clients whose earlier I-Am promised more than the request being answered, a peer that asks first; a bare station granting a symbolic window with every SegmentAck: never more segments outstanding than granted; windows under loss with unequal proposals; devices that move between addresses; an announcement that arrives between an attempt and its retry; when the server cannot comply the abort comes from the server, on the wire.",
             "Trusted: as C04; the application feeds I-Am announcements into DeviceInfoCache.iam_device_info (bacpypes leaves that to the application)."),
     "C15": ("6/C15", SCN + "; reply octets and object snapshots compared with a reference property store and reference encoders written from clauses 15.5/15.7/15.9/21",
             "A device stack with ReadProperty/WriteProperty/ReadPropertyMultiple services holding scalar, array and list objects, and a "
